@@ -54,6 +54,15 @@ func c06Run(r *runCtx, id string, f []string) {
 		return
 	}
 	mo := multi.observe()
+	// the store is a map and is walked in another order by every scrape: look more than once
+	var moreScrapes []string
+	if mo.scrapeOK && multi.hung == "" {
+		for k := 0; k < 5; k++ {
+			if t, err := multi.scrape(); err == nil {
+				moreScrapes = append(moreScrapes, t)
+			}
+		}
+	}
 	r.obs(id, "%s", strings.Join(dumps, " || "))
 	multi.close()
 	// whatever the programs do to each other's loads, the store never ends up holding one name with
@@ -142,6 +151,11 @@ func c06Run(r *runCtx, id string, f []string) {
 			}
 		} else if so.scrapeOK && mo.scrapeOK {
 			x, y := strings.Join(seriesOfProg(so.scrape, prog), "\n"), strings.Join(seriesOfProg(mo.scrape, prog), "\n")
+			for _, t := range moreScrapes {
+				if x == y {
+					y = strings.Join(seriesOfProg(t, prog), "\n")
+				}
+			}
 			if x != y {
 				r.fail(id, "other-program-changes-export", "ops %s: exported series of %s alone `%s`, together `%s`", f[2], prog, x, y)
 				failed = true
@@ -174,7 +188,7 @@ func init() {
 		gen: func(g *genCtx) {
 			cat := rtEncodeCatalogue()
 			emit := func(ops []string) { g.emit("rt", cat, strings.Join(ops, ";")) }
-			vers := []int{0, 3, 4, 6, 7, 9, 11}
+			vers := []int{0, 3, 4, 6, 7, 9, 11, 17}
 			files := []string{"a.mtail", "b.mtail", "c.mtail", "d.mtail"}
 			// all ordered pairs of versions for two programs, both load orders
 			for _, a := range vers {
@@ -182,6 +196,11 @@ func init() {
 					emit([]string{fmt.Sprintf("w:a.mtail:%d", a), fmt.Sprintf("w:b.mtail:%d", b), "load", "l:x", "l:y", "n:zz", "load"})
 					emit([]string{fmt.Sprintf("w:b.mtail:%d", b), "load", "l:x", fmt.Sprintf("w:a.mtail:%d", a), "load", "l:y", "rm:b.mtail", "load", "l:x"})
 				}
+			}
+			// one program's label sets cannot be exported; the others' are, whatever order the store is
+			// walked in (it is a map: the scrape is repeated)
+			for _, other := range []int{0, 7, 10, 13} {
+				emit([]string{"w:a.mtail:17", fmt.Sprintf("w:b.mtail:%d", other), fmt.Sprintf("w:c.mtail:%d", other), "load", "l:x", "l:y", "load", "l:x", "load", "l:y", "load"})
 			}
 			n := 120
 			if g.thorough() {
